@@ -26,7 +26,8 @@ import sys
 import tempfile as _tempfile
 from multiprocessing import Pool
 
-from harness import tlc, MachineryError, runner, oscore_env
+from harness import tlc, MachineryError, runner, oscore_env, VERIF
+import re
 
 MC_CFG = """SPECIFICATION Spec
 CONSTANTS
@@ -684,6 +685,49 @@ def replay(rep, args):
     rep.assumptions.append(oscore_env.ASSUMPTION)
 
 
+def apalache_phase(rep):
+    """Unbounded complement of the bounded exhaustive run: the inductive invariant of SeqPersistInd.tla
+    (persist-ahead scheme over unbounded integers, a crash between any two steps) discharged with
+    Apalache; a mutated copy whose Store leaves the disk untouched must be refuted.  Never gates the
+    verdict: the module talks about the model, the histories above talk about the code."""
+    import shutil, subprocess, tempfile
+
+    exe = shutil.which("apalache-mc")
+    out = {"ran": False}
+    rep.coverage["apalache_inductive_invariant"] = out
+    if exe is None:
+        out["skipped"] = "apalache-mc not on PATH"
+        return
+    src = open(_os.path.join(VERIF, "spec", "SeqPersistInd.tla")).read()
+    d = tempfile.mkdtemp(prefix="c13apa")
+    try:
+        def run(name, text, init, length):
+            with open(_os.path.join(d, name + ".tla"), "w") as f:
+                f.write(text.replace("MODULE SeqPersistInd", "MODULE " + name))
+            try:
+                r = subprocess.run(
+                    [exe, "check", "--init=" + init, "--inv=IndInv", "--length=%d" % length, "--out-dir=" + _os.path.join(d, "out"), name + ".tla"],
+                    cwd=d, capture_output=True, text=True, timeout=600,
+                )
+            except subprocess.TimeoutExpired:
+                return "timeout"
+            m = re.search(r"EXITCODE: (\w+)", r.stdout)
+            return m.group(1) if m else "unknown(%d)" % r.returncode
+
+        out["ran"] = True
+        out["Init_implies_IndInv"] = run("SeqPersistInd", src, "Init", 0)
+        out["IndInv_and_Next_implies_IndInv_primed"] = run("SeqPersistInd", src, "IndInit", 1)
+        mutated = src.replace('pc = "mem" /\\ disk\' = persisted', 'pc = "mem" /\\ disk\' = disk')
+        if mutated == src:
+            raise MachineryError("SeqPersistInd.tla: Store action not found for the negative control")
+        out["control_store_skips_disk_refuted"] = run("SeqPersistIndBad", mutated, "IndInit", 1)
+        out["inductive"] = out["Init_implies_IndInv"] == "OK" and out["IndInv_and_Next_implies_IndInv_primed"] == "OK"
+        if not out["inductive"] or out["control_store_skips_disk_refuted"] != "ERROR":
+            rep.add_drift("Apalache on SeqPersistInd: %s" % {k: v for k, v in out.items() if k != "ran"})
+    finally:
+        shutil.rmtree(d, ignore_errors=True)
+
+
 def work(rep, args):
     if args.replay:
         return replay(rep, args)
@@ -815,6 +859,8 @@ def work(rep, args):
                 "checker_cmd": "tlc SeqPersist.tla (Spec exhaustive; -simulate) ; tlc SeqPersistTrace.tla on recorded histories",
             }
         )
+    if not quick:
+        apalache_phase(rep)
     rep.assumptions += [
         oscore_env.ASSUMPTION,
         "a crash is process death between two file-system calls of _store (mkstemp, write+flush, fsync, replace): memory lost, directory as left behind, lock and descriptors dropped; no reordering of completed disk writes (as the statement says)",
